@@ -569,7 +569,25 @@ def r9_propagation(F, res, rid):
                 if t[0] == "discr" and len(t) > 2 and str(t[2]).endswith("table::Action") and v == frozenset(["Shift"]):
                     shift_cl = True
     gotos = any(has_field(TermBuilder(f, F).operand(t["args"][0]), "gotos", "LRState") for _, t in f.calls() if t["args"] and callee(t).endswith("NonTermVec::<T>::iter"))
-    if have_chain and shift_cl and gotos:
+    # ... and every link is followed: nothing filters, skips or cuts the chained transitions (a state's transition to itself
+    # carries lookaheads like any other)
+    tbf = TermBuilder(f, F)
+    cut = []
+    for g in [f] + cls:
+        tbg = tbf if g is f else TermBuilder(g, F)
+        for _, t2 in g.calls():
+            c = callee(t2)
+            if any(c.endswith(k) for k in ("Iterator::filter", "Iterator::skip", "Iterator::take", "Iterator::step_by", "Iterator::skip_while",
+                                           "Iterator::take_while")) and t2["args"]:
+                src = tbg.operand(t2["args"][0])
+                if has_field(src, "items", "LRState"):
+                    continue        # the filter over a state's items (kernel items of the target)
+                if has_call(src, "Iterator::chain") or has_field(src, "gotos", "LRState") or has_field(src, "actions", "LRState"):
+                    cut.append(mir.short(c))
+    if cut:
+        res.violation(rid, "links", "some transitions are left out of the propagation (%s on the GOTO/SHIFT links): their targets never "
+                      "receive the lookaheads" % ", ".join(sorted(set(cut))), f.loc())
+    elif have_chain and shift_cl and gotos:
         res.ok(rid, "links", f.loc(), "gotos chained with the targets of Shift actions")
     else:
         res.violation(rid, "links", "lookaheads are not propagated along both GOTO and SHIFT transitions (gotos: %s, chain: %s, shift "
